@@ -11,10 +11,11 @@ C09_THMS = ['Theo.C09_step_splice', 'Theo.C09_instantiate', 'Theo.C09_detect_lef
             'Theo.C09_match_derives', 'Theo.C09_text_constraints', 'Theo.C09_match_complete']
 C12_THMS = ['Theo.C12_rejected_reported', 'Theo.C12_accepted_silent', 'Theo.C12_never_applied', 'Theo.C12_independent',
             'Theo.C12_detector_is_prefix_lr', 'Theo.C12_accepted_deterministic', 'Theo.C12_nondeterministic_rejected',
-            'Theo.C12_ends_in_P_or_ARGS', 'Theo.C12_lr1_accepted', 'Theo.C12_conflict_not_lr1', 'Theo.C13_lr1_no_conflict', 'Theo.C13_lr1_satisfiable']
+            'Theo.C12_ends_in_P_or_ARGS', 'Theo.C12_lr1_accepted', 'Theo.C12_conflict_not_lr1', 'Theo.C13_lr1_no_conflict', 'Theo.C13_lr1_satisfiable',
+            'Theo.C12_accepted_lr1', 'Theo.C12_accepted_iff_lr1', 'Theo.C12_rejected_iff_not_lr1', 'Theo.C12ConverseExample.assignMacro_lr1']
 C13_THMS = ['Theo.C13_first_correct', 'Theo.C13_nullable_correct', 'Theo.C13_sound_full', 'Theo.C13_sound_prefix',
             'Theo.C13_value_is_fold', 'Theo.C13_reject', 'Theo.C13_complete_full', 'Theo.C13_complete_prefix', 'Theo.C13_fuel_mono',
-            'Theo.C13_unambiguous', 'Theo.C13_ambiguous_conflict', 'Theo.C13_prefix_unique']
+            'Theo.C13_unambiguous', 'Theo.C13_ambiguous_conflict', 'Theo.C13_prefix_unique', 'Theo.C13_no_conflict_lr1', 'Theo.C13_no_conflict_iff_lr1']
 
 TOKK = {'(': 5, ')': 4, ',': 6, ';': 7, ':': 8, ':=': 9, '=': 11, 'DO': 12, 'LOOP': 13, 'GOTO': 15, 'THEN': 17, 'STOP': 18, 'END': 19,
         'RUN': 36, 'WITH': 37, '<P>': 29, '<V>': 30, '<ID>': 31, '<INT>': 32, '<A>': 33, 'IF': 16, 'WHILE': 14, '!= 0': 10}
@@ -182,7 +183,7 @@ def check_C09(ctx):
 
 
 def check_C12(ctx):
-    build_all(ctx, ['Theo.Props.C12', 'Theo.Props.C12Semantic', 'Theo.Props.C12Converse'], C12_THMS)
+    build_all(ctx, ['Theo.Props.C12', 'Theo.Props.C12Semantic', 'Theo.Props.C12Converse', 'Theo.Props.C12Iff'], C12_THMS)
     if ctx.harness is None:
         return finish(ctx)
     ALPH = ['foo', ';', ',', '<ID>', '<INT>', '<V>', '<A>', '<P>']
@@ -367,7 +368,7 @@ def random_grammar(r):
 
 
 def check_C13(ctx, thms=None):
-    build_all(ctx, ['Theo.Props.C13', 'Theo.Props.C13Complete'], thms or C13_THMS)
+    build_all(ctx, ['Theo.Props.C13', 'Theo.Props.C13Complete', 'Theo.Props.C12Iff'], thms or C13_THMS)
     if ctx.harness is None:
         return finish(ctx)
     r = ctx.rnd
